@@ -193,3 +193,18 @@ for _f in ("hellinger", "total_variation", "jensen_shannon_divergence", "symmetr
 CONTRACTS[F + "kantorovich1d"]["gen_all"] = lambda rng: dict(_gen_dense_pair(rng), p=rng.choice([1, 2, 3]))
 CONTRACTS[F + "arr_union"]["gen_all"] = lambda rng: (lambda d: dict(ar1=d["ind1"], ar2=d["ind2"]))(_gen_sparse_pair(rng))
 CONTRACTS[F + "arr_intersect"]["gen_all"] = lambda rng: (lambda d: dict(ar1=d["ind1"], ar2=d["ind2"]))(_gen_sparse_pair(rng))
+
+
+def _index_of(arr, x):
+    for k, y in enumerate(arr):
+        if y == x:
+            return k
+    return -1
+
+
+# run-time witnesses of the TRUSTED contracts' existential position functions (so that the engine cross-check evaluates those
+# clauses on the real arr_union / arr_intersect instead of skipping them)
+CONTRACTS[F + "arr_union"]["runtime_ghost_out"] = dict(
+    pos1=lambda args, result: (lambda a: _index_of(result, args["ar1"][a])),
+    pos2=lambda args, result: (lambda b: _index_of(result, args["ar2"][b])))
+CONTRACTS[F + "arr_intersect"]["runtime_ghost_out"] = dict(pos=lambda args, result: (lambda a: _index_of(result, args["ar1"][a])))
